@@ -40,7 +40,9 @@ EXPLANATION = (
     "quaternion-from-matrix, Rodrigues form of rotate, rotate-about-a-point, lookat, yaw/pitch/roll. This decides the "
     "exact-arithmetic clause for all inputs at once. Three shape rules on the type-checked AST/CFG add: every branch of "
     "quaternion-from-matrix is taken only where its pivot is >= 1 (linear program over the guards), slerp applies the "
-    "hemisphere correction before interpolating, and orthogonal() is the Newton step (X + X^-T)/2 whose constant budget and "
+    "hemisphere correction on every path (path enumeration over a small term algebra: operands s*a, b with s*dot(a,b) >= 0 "
+    "and the angle from s*dot(a,b)), frame() returns (x, cross(N,x), N) with x a non-vanishing normalised vector orthogonal "
+    "to N, and orthogonal() is the Newton step (X + X^-T)/2 whose constant budget and "
     "early-exit threshold bring every singular value in [1/64, 64] within 1e-6 of 1 (interval iteration of s -> (s+1/s)/2). "
     "Not decided: floating-point rounding beyond those clauses, the interpolation formula of slerp (transcendental), "
     "frame() (selects between vector objects, outside the IR fragment), the SIMD rcp/rsqrt approximations (C07).")
